@@ -1,4 +1,5 @@
 import Ruint.Lemmas.Add
+import Ruint.Lemmas.GenUintWrap
 import Ruint.Lemmas.GenUint
 
 /-!
@@ -257,5 +258,41 @@ masked top limb of a 65-bit value), evaluated by the kernel. -/
 example : Canon 65 [W - 1, 1] ∧ Canon 65 [1, 0] := by
   refine ⟨⟨rfl, ?_, ?_⟩, ⟨rfl, ?_, ?_⟩⟩ <;> simp [AllLt, W] 
 example : overflowingAdd 65 [W - 1, 1] [1, 0] = ([0, 0], true) := by decide +kernel
+
+/-! ### the wrappers of `src/add.rs`, regenerated from the source
+
+`checked_*` / `saturating_*` (a `match` on the `overflowing_*` pair), `wrapping_*` (`.0`), `overflowing_neg`
+(`Self::ZERO.overflowing_sub(self)`), `abs_diff` (`if self < other`, the numeric order of C04) are translated too and equal
+the models on well-formed operands; the driver runs the generated functions for every named method. -/
+
+theorem gen_overflowing_neg_eq (bits : ℕ) (hN : nlimbs bits < 2 ^ 64) (a : List ℕ) (ha : Canon bits a) :
+    Ruint.Gen.uint_overflowing_neg (nlimbs bits + 1) bits (nlimbs bits) a = overflowingNeg bits a :=
+  Ruint.GenUintWrap.overflowing_neg_eq bits hN a ha.1 ha.2.1
+
+theorem gen_checked_eq (bits : ℕ) (hN : nlimbs bits < 2 ^ 64) (a b : List ℕ) (ha : Canon bits a) (hb : Canon bits b) :
+    Ruint.Gen.uint_checked_add (nlimbs bits + 1) bits (nlimbs bits) a b = checkedAdd bits a b
+    ∧ Ruint.Gen.uint_checked_sub (nlimbs bits + 1) bits (nlimbs bits) a b = checkedSub bits a b
+    ∧ Ruint.Gen.uint_checked_neg (nlimbs bits + 1) bits (nlimbs bits) a = checkedNeg bits a :=
+  ⟨Ruint.GenUintWrap.checked_add_eq bits hN a b ha.1 hb.1 ha.2.1 hb.2.1,
+   Ruint.GenUintWrap.checked_sub_eq bits hN a b ha.1 hb.1 ha.2.1 hb.2.1,
+   Ruint.GenUintWrap.checked_neg_eq bits hN a ha.1 ha.2.1⟩
+
+theorem gen_saturating_eq (bits : ℕ) (hN : nlimbs bits < 2 ^ 64) (a b : List ℕ) (ha : Canon bits a) (hb : Canon bits b) :
+    Ruint.Gen.uint_saturating_add (nlimbs bits + 1) bits (nlimbs bits) a b = saturatingAdd bits a b
+    ∧ Ruint.Gen.uint_saturating_sub (nlimbs bits + 1) bits (nlimbs bits) a b = saturatingSub bits a b :=
+  ⟨Ruint.GenUintWrap.saturating_add_eq bits hN a b ha.1 hb.1 ha.2.1 hb.2.1,
+   Ruint.GenUintWrap.saturating_sub_eq bits hN a b ha.1 hb.1 ha.2.1 hb.2.1⟩
+
+theorem gen_wrapping_eq (bits : ℕ) (hN : nlimbs bits < 2 ^ 64) (a b : List ℕ) (ha : Canon bits a) (hb : Canon bits b) :
+    Ruint.Gen.uint_wrapping_add (nlimbs bits + 1) bits (nlimbs bits) a b = wrappingAdd bits a b
+    ∧ Ruint.Gen.uint_wrapping_sub (nlimbs bits + 1) bits (nlimbs bits) a b = wrappingSub bits a b
+    ∧ Ruint.Gen.uint_wrapping_neg (nlimbs bits + 1) bits (nlimbs bits) a = wrappingNeg bits a :=
+  ⟨Ruint.GenUintWrap.wrapping_add_eq bits hN a b ha.1 hb.1 ha.2.1 hb.2.1,
+   Ruint.GenUintWrap.wrapping_sub_eq bits hN a b ha.1 hb.1 ha.2.1 hb.2.1,
+   Ruint.GenUintWrap.wrapping_neg_eq bits hN a ha.1 ha.2.1⟩
+
+theorem gen_abs_diff_eq (bits : ℕ) (hN : nlimbs bits < 2 ^ 64) (a b : List ℕ) (ha : Canon bits a) (hb : Canon bits b) :
+    Ruint.Gen.uint_abs_diff (nlimbs bits + 1) bits (nlimbs bits) a b = absDiff bits a b :=
+  Ruint.GenUintWrap.abs_diff_eq bits hN a b ha.1 hb.1 ha.2.1 hb.2.1
 
 end Ruint.C01
